@@ -756,6 +756,21 @@ pub fn observe_doc(case: &DocCase) -> Obs {
         .map(|(n, k, _)| format!("{n}:{}", k.desc(resolution.graph().types())))
         .collect();
     obs.push(("imports-listing".into(), listing.join("|")));
+    {
+        let clone = resolution.graph().clone();
+        let r = clone.encode(EncodeOptions {
+            define_components: true,
+            validate: false,
+            processor: None,
+        });
+        obs.push((
+            "clone-encode-defined".into(),
+            match r {
+                Ok(b) => format!("ok:{}:{}", b.len(), sha256_hex(&b)),
+                Err(e) => format!("err:{}", err_chain(&e)),
+            },
+        ));
+    }
     for (label, define) in [("encode-defined", true), ("encode-imported", false)] {
         let r = resolution.encode(EncodeOptions {
             define_components: define,
@@ -789,8 +804,25 @@ fn run_cli_family(run: &mut Run) {
     let sc = gen_scenario(t, if thorough { 16 } else { 10 });
     let nproc = if thorough { 3 } else { 2 };
     let seeds: Vec<u64> = (0..nproc).map(|_| t.draw(u64::MAX)).collect();
-    let args = sc.cmd.args();
-    t.event(format!("workload K: {} [{}]", sc.cmd.name(), sc.label));
+    let mut args = sc.cmd.args();
+    // `wac resolve` prints the DOT form of the resolved graph: same scenario, other subcommand
+    let mut resolve_cmd = false;
+    if let crate::props::c19::Cmd::Compose(c) = &sc.cmd {
+        if t.chance(1, 4) {
+            resolve_cmd = true;
+            args = vec!["resolve".to_string()];
+            if let Some(d) = &c.deps_dir {
+                args.push("--deps-dir".into());
+                args.push(d.clone());
+            }
+            for (k, v) in &c.deps {
+                args.push("--dep".into());
+                args.push(format!("{k}={v}"));
+            }
+            args.push(c.src.clone());
+        }
+    }
+    t.event(format!("workload K: {} [{}]", if resolve_cmd { "resolve" } else { sc.cmd.name() }, sc.label));
     t.event(format!("argv: wac {}", args.join(" ")));
     for (k, p) in &sc.faults {
         t.event(format!("disk fault {k} on {p}"));
@@ -802,7 +834,7 @@ fn run_cli_family(run: &mut Run) {
     }
     run.nontrivial = true;
     run.cover("families", "K");
-    run.cover("cli_subcommands", sc.cmd.name());
+    run.cover("cli_subcommands", if resolve_cmd { "resolve" } else { sc.cmd.name() });
     if let crate::props::c19::Cmd::Plug(p) = &sc.cmd {
         let stems: std::collections::BTreeSet<String> = p
             .plugs
